@@ -51,6 +51,9 @@ structure Folder where
   /-- `Folder._file_request_manager`: file name → the `File` whose request manager answers. -/
   fileRoutes : Routes := []
   restoreCountdown : Int := 0
+  /-- `Folder.restore_duration` (class default 3; overwritten by every `create_folder` of that name when the file
+  system has a `_default_folder_restore_duration`). -/
+  restoreDuration : Int := 3
 deriving DecidableEq, Repr
 
 structure State where
@@ -62,8 +65,8 @@ structure State where
   numDeletions : Nat
   /-- next fresh uuid -/
   next : Nat
-  /-- `Folder.restore_duration` (3, or `FileSystem._default_folder_restore_duration`); constant. -/
-  restoreDuration : Int
+  /-- `FileSystem._default_folder_restore_duration` (`None` unless the scenario sets it after construction). -/
+  defaultRestore : Option Int
 deriving DecidableEq, Repr
 
 /-- Request status. `raised` = a Python exception would leave the request. -/
@@ -161,8 +164,9 @@ def restoreFile (g : Folder) (n : Name) : Folder × Bool :=
               fileRoutes := (f.name, f.id) :: g.fileRoutes }, true)
 
 /-- `Folder.restore()`: clear the flag, start the countdown unless one is running. -/
-def restore (g : Folder) (d : Int) : Folder :=
-  { g with deleted := false, restoreCountdown := if g.restoreCountdown ≤ 0 then d else g.restoreCountdown }
+def restore (g : Folder) : Folder :=
+  { g with deleted := false,
+           restoreCountdown := if g.restoreCountdown ≤ 0 then g.restoreDuration else g.restoreCountdown }
 
 /-- `Folder._restoring_timestep`: decrement-then-test; on completion restore every live file (a repair) and then every
 file that was in `deleted_files` when the loop started, each *by name*; then clear the folder's flag. -/
@@ -177,12 +181,12 @@ def restoringTimestep (g : Folder) : Folder :=
   else g
 
 /-- The item-level requests of a folder (`scan/checkhash/repair/restore/corrupt`). -/
-def verb (g : Folder) (d : Int) : Verb → Option (Folder × Bool)
+def verb (g : Folder) : Verb → Option (Folder × Bool)
   | .scan => some (g, !g.deleted)
   | .checkhash => some (g, false)
   | .repair => some (g, !g.deleted)
   | .corrupt => some (g, !g.deleted)
-  | .restore => some (g.restore d, true)
+  | .restore => some (g.restore, true)
   | .other => none
 
 /-- `_FileExistsValidator + _FileNotDeletedValidator` of the folder's `file` route. -/
@@ -236,10 +240,14 @@ def updFolder (s : State) (i : Nat) (t : Folder → Folder) : State :=
 
 /-- `FileSystem.create_folder(name)`: returns the state and the (existing or new) folder. -/
 def createFolder (s : State) (n : Name) : State × Folder :=
+  let setDur (g : Folder) : Folder :=
+    match s.defaultRestore with
+    | some d => { g with restoreDuration := d }
+    | none => g
   match getFolder s n with
-  | some g => ({ s with folders := dictSet Folder.id s.folders g }, g)
+  | some g => ({ s with folders := dictSet Folder.id s.folders (setDur g) }, setDur g)
   | none =>
-    let g : Folder := { id := s.next, name := n }
+    let g : Folder := setDur { id := s.next, name := n }
     ({ s with folders := dictSet Folder.id s.folders g, folderRoutes := (n, g.id) :: s.folderRoutes,
               next := s.next + 1 }, g)
 
@@ -289,7 +297,7 @@ def restoreFolder (s : State) (F : Name) : State × Out :=
   match getFolder s F true with
   | none => (s, .failure)
   | some g =>
-    let g' := g.restore s.restoreDuration
+    let g' := g.restore
     ({ s with deletedFolders := dictPop Folder.id s.deletedFolders g.id,
               folders := dictSet Folder.id s.folders g',
               folderRoutes := (g.name, g.id) :: s.folderRoutes }, .success)
@@ -342,9 +350,11 @@ def fsFileVerb (s : State) (F x : Name) (v : Verb) : State × Out :=
         (updFolder s g.id (fun g => { g with files := g.files.map (fun y => if y.id == f.id then f' else y) }),
          ofBool b)
 
-def init (restoreDuration : Int := 3) : State :=
+/-- `FileSystem.__init__` creates `root` (with the class-default durations); the scenario loader may set
+`_default_folder_restore_duration` afterwards. -/
+def init (defaultRestore : Option Int := none) : State :=
   { folders := [{ id := 0, name := "root" }], deletedFolders := [], folderRoutes := [("root", 0)],
-    numCreations := 0, numDeletions := 0, next := 1, restoreDuration := restoreDuration }
+    numCreations := 0, numDeletions := 0, next := 1, defaultRestore := defaultRestore }
 
 def step (s : State) : Op → State × Out
   | .createFile F x force => createFile s F x force
@@ -354,12 +364,40 @@ def step (s : State) : Op → State × Out
   | .restoreFile F x => restoreFile s F x
   | .restoreFolder F => restoreFolder s F
   | .access F x => access s F x
-  | .folderVerb F v => viaFolder s F (fun g => (g.verb s.restoreDuration v).map (fun (g', b) => (g', ofBool b)))
+  | .folderVerb F v => viaFolder s F (fun g => (g.verb v).map (fun (g', b) => (g', ofBool b)))
   | .folderDelete F x => viaFolder s F (fun g => let (g', b) := g.removeFileByName x; some (g', ofBool b))
   | .fileVerb F x v => viaFolder s F (fun g => some (g.fileRequest x v))
   | .fsFileVerb F x v => fsFileVerb s F x v
   | .preTick => ({ s with numCreations := 0, numDeletions := 0 }, .success)
   | .tick => ({ s with folders := s.folders.map Folder.restoringTimestep }, .success)
+
+/-! ### the request syntax -/
+
+def verbOf : String → Verb
+  | "scan" => .scan | "checkhash" => .checkhash | "repair" => .repair | "restore" => .restore
+  | "corrupt" => .corrupt | _ => .other
+
+/-- The operation a request path below `file_system` denotes (names as given; the `force` element is the Python
+truthiness of what the request carries, written `"1"`/`"0"`). Truncated paths (which raise `IndexError` in
+`RequestManager.__call__` or in a handler's `request[k]`; finding F-1, properties C01/C05) denote nothing. -/
+def ofRequest : List String → Option Op
+  | ["create", "file", F, x, force] => some (.createFile F x (force == "1"))
+  | ["create", "folder", F] => some (.createFolder F)
+  | ["delete", "file", F, x] => some (.deleteFile F x)
+  | ["delete", "folder", F] => some (.deleteFolder F)
+  | ["restore", "file", F, x] => some (.restoreFile F x)
+  | ["restore", "folder", F] => some (.restoreFolder F)
+  | ["access", F, x] => some (.access F x)
+  | ["folder", F, "delete", x] => some (.folderDelete F x)
+  | ["folder", F, "file", x, v] => some (.fileVerb F x (verbOf v))
+  | ["folder", F, v] => if v = "delete" ∨ v = "file" then none else some (.folderVerb F (verbOf v))
+  | ["file", F, x, v] => some (.fsFileVerb F x (verbOf v))
+  | _ => none
+
+/-- A request as the simulation receives it: `["network","node",<node>,"file_system", …]`. -/
+def ofNodeRequest : List String → Option Op
+  | "network" :: "node" :: _ :: "file_system" :: rest => ofRequest rest
+  | _ => none
 
 /-- Run an operation list, collecting the answers. -/
 def run (s : State) : List Op → State × List Out
